@@ -520,7 +520,11 @@ def _hetero_network():
     A = Species("A", D={"e0": 1.0, "e1": 0.5, "wall": 0})
     B = Species("B", D={"e0": 0.3, "e1": 0.7, "wall": 0})
     r = Reaction("A -> B", kf={"e0": 0.2, "e1": 0.05, "wall": 0.01})
-    return RDNetwork(species=[A, B], reactions=[r], environments=list(ENVS))
+    # reactions of other orders after the first one (a per-reaction quantity computed once for all cells - order, volume
+    # factor - must be the one of that reaction in both twins)
+    r2 = Reaction("2 B -> A", kf={"e0": 0.003, "e1": 0.001, "wall": 0.0005})
+    r3 = Reaction(" -> B", kf={"e0": 0.7, "e1": 0.2, "wall": 0})
+    return RDNetwork(species=[A, B], reactions=[r, r2, r3], environments=list(ENVS))
 
 
 def _hetero_systems(case, variant, chemostat):
